@@ -165,8 +165,9 @@ def vocabulary_sweep(t):
     cn = '<cn cellml:units="dimensionless">2</cn>'
     ci = "<ci>n</ci>"
     for e in t["mathml"]:
-        forms = ["<apply><%s/>%s</apply>" % (e, ci), "<apply><%s/>%s%s</apply>" % (e, ci, cn), "<apply><%s/>%s%s%s</apply>" % (e, ci, cn, ci),
-                 "<%s/>" % e, "<apply><plus/>%s<%s/></apply>" % (ci, e)]
+        # every arity at once: three equations' worth of forms in one operand list would change the arity, so one document
+        # per form, but only the forms that differ per element class (the arity sweep of the math contract covers the rest)
+        forms = ["<apply><%s/>%s</apply>" % (e, ci), "<apply><%s/>%s%s</apply>" % (e, ci, cn), "<%s/>" % e]
         if e == "root":
             forms.append("<apply><root/><degree>%s</degree>%s</apply>" % (cn, ci))
         if e == "log":
@@ -250,7 +251,7 @@ def stress_sweep():
     out.append(("stress:many-variables*2500", base20(ELEM="".join('<variable name="v%d" units="second"/>' % i for i in range(1200)))))
     out.append(("stress:same-element*6000", base20(ELEM="<b/>" * 6000)))
     out.append(("stress:deep-apply*250", base20(U="dimensionless", OP="<apply><abs/>" * 250 + "<ci>n</ci>" + "</apply>" * 250)))
-    out.append(("stress:wide-plus*3000", base20(U="dimensionless", OP="<apply><plus/>" + "<ci>n</ci>" * 3000 + "</apply>")))
+    out.append(("stress:wide-plus*800", base20(U="dimensionless", OP="<apply><plus/>" + "<ci>n</ci>" * 800 + "</apply>")))
     out.append(("stress:deep-plus-left*240", base20(U="dimensionless", OP="<apply><plus/>" * 240 + "<ci>n</ci>" + "<ci>n</ci></apply>" * 240)))
     return [(l, d) for l, d in out if len(d) <= MAXLEN]
 
